@@ -151,6 +151,15 @@ SIG_RECV_C03 = SIG_RECV_FRAMING | {"control-frame-with-violation-processed", "vi
 SIG_RECV_C04 = {"clean-end-of-an-incomplete-message", "message-reported-complete-with-bytes-missing", "more-bytes-handed-over-than-received-for-the-message"}
 SIG_RECV_C08 = {"more-than-limit-plus-one-bytes-handed-over", "message-beyond-the-limit-reported-complete", "read-limit-error-before-the-limit"}
 SIG_RECV_C15 = {"pong-written-without-a-received-ping", "pong-does-not-echo-the-next-received-ping"}
+# signatures of TraceSend.tla (outbound message pipeline of every recorded execution)
+SIG_SEND_C05 = {"message-started-without-the-message-lock", "writer-step-without-the-writer-lock", "chunk-written-without-an-open-message",
+                "message-closed-without-an-open-message"}
+SIG_SEND_C02 = {"message-compressed-without-negotiated-deflate", "compression-decision-changed-inside-a-message", "first-frame-opcode-is-not-the-message-type",
+                "later-frame-of-a-message-is-not-a-continuation", "rsv1-does-not-match-the-compression-decision", "frame-payload-differs-from-the-declared-length"}
+SIG_SEND_C01 = {"message-bytes-on-the-wire-differ-from-the-bytes-written", "compression-decision-changed-inside-a-message"}
+SIG_SEND_ALL = SIG_SEND_C05 | SIG_SEND_C02 | SIG_SEND_C01
+SIG_C02 |= SIG_SEND_C02 | SIG_SEND_C01
+SIG_C05 |= SIG_SEND_C05 | SIG_SEND_C01
 SIG_RECV_ALL = SIG_RECV_C03 | SIG_RECV_C04 | SIG_RECV_C08 | SIG_RECV_C15
 SIG_C05 |= SIG_RECV_FRAMING | SIG_RECV_C04
 SIG_C15 |= SIG_RECV_C15
@@ -184,6 +193,8 @@ def conc_campaign(ctx, n, only, extra_args=()):
     absorb_rejections(ctx, rej, "TraceWire", wire, only=only)
     if only is None or (set(only) & SIG_RECV_ALL):
         core.recv_validate(ctx, conn, only)
+    if only is None or (set(only) & SIG_SEND_ALL):
+        core.send_validate(ctx, conn, only)
     ctx.extra["rule"] = ("seeded concurrent executions of the real Conn (1-3 writers using Write and streaming Writer, 0-2 pingers, "
                          "reader loop / CloseRead / none, closer in {Close, CloseNow, context cancel, peer Close, none}) against an "
                          "independent raw peer over a chunking, optionally zero-window transport with yields at hooks; every hook event "
@@ -555,7 +566,8 @@ def unit_models(ctx):
 def roundtrip(ctx, kinds, stride, with_units, only=None, ignore=()):
     rows, wire = ctx.path("pair.ndjson"), ctx.path("rtwire.ndjson")
     ctx.tlc("WSPairRows", "Rows.cfg", env={"OUT": rows, "BIG": 0 if ctx.quick() else 1}, workers=4, name="roundtrip-programs")
-    args = ["-rows", rows, "-seed", ctx.seed, "-stride", stride, "-kinds", kinds, "-wire-trace", wire]
+    ctrace = ctx.path("rtconn.ndjson")
+    args = ["-rows", rows, "-seed", ctx.seed, "-stride", stride, "-kinds", kinds, "-wire-trace", wire, "-conn-trace", ctrace, "-trace-every", 6 if ctx.quick() else 10]
     if not ctx.quick():
         args += ["-huge-every", 9]
     if with_units:
@@ -565,6 +577,10 @@ def roundtrip(ctx, kinds, stride, with_units, only=None, ignore=()):
             args += ["-window-rows", w]
     rep = ctx.drive("roundtrip", args, timeout=7200)
     ctx.absorb(rep, only=only, ignore=ignore)
+    # (C) hook events of every 6th connection of these programs: the sender pipeline (TraceSend) and the receiver's account (TraceRecv)
+    tsig = (SIG_SEND_ALL | SIG_RECV_C04 | SIG_RECV_FRAMING) if only is None else (set(only) | SIG_SEND_C02)
+    core.send_validate(ctx, ctrace, tsig, name="TraceSend(roundtrip)")
+    core.recv_validate(ctx, ctrace, tsig, name="TraceRecv(roundtrip)")
     return wire
 
 
